@@ -8,7 +8,7 @@ from rules.rfs import *
 LEVEL = "other"
 MIN_OBLIGATIONS = 14
 THOROUGH_CONFIGS = ("headeronly",)
-TECHNIQUE = "numeric CFG projection of the count guards (N<=0, N==1), linear normal form of the deletion loop's condition, exhaustive evaluation of the extracted comparator over a small (date,index) domain, name-pattern table rules (anchors, escaped pieces, digit classes); tie-breaker-tolerant comparator evaluation, one-removal-per-rotation rule, shared max+1 index rule; who-may-delete allow-list (retention's oldest file, compressFile's just-compressed original, the fresh rename target); constructor-derived members tabulated by cases for the count guards; locale-independent name digits; one time base for the sink's dates; exact end anchor (\\z) of the retention pattern; file-count limit followed from the constructors into the member by cases; unstable later pass of a multi-pass ordering"
+TECHNIQUE = "numeric CFG projection of the count guards (N<=0, N==1), linear normal form of the deletion loop's condition, exhaustive evaluation of the extracted comparator over a small (date,index) domain, name-pattern table rules (anchors, escaped pieces, digit classes); tie-breaker-tolerant comparator evaluation, one-removal-per-rotation rule, shared max+1 index rule; who-may-delete allow-list (retention's oldest file, compressFile's just-compressed original, the fresh rename target); constructor-derived members tabulated by cases for the count guards; locale-independent name digits; one time base for the sink's dates; exact end anchor (\\z) of the retention pattern; file-count limit followed from the constructors into the member by cases; unstable later pass of a multi-pass ordering; the INI front-end hands max_file_count to the sink as read (argument identity, shared with C19)"
 LEVEL_TEXT = ("Decides for all histories the structural necessary conditions of the retention policy: nothing is deleted for N<=0, no rotation for N==1, the deletion loop continues while "
               "|rotated| >= N and removes exactly the head it inspected, rotate() always runs the clean-up after the rename, candidates are ordered by a key that identifies rotation order "
               "(date and numeric index captured from the name; a modification-time-only key is a violation), the victim is the oldest end of that order, and only files matching the "
